@@ -370,6 +370,7 @@ type vC13Sess struct {
 	calib  bool
 	users  []string // verif users currently in AuthInternalUsers (name = pass)
 	gone   []string // verif users removed by the last change
+	tableWhy string // last path-table discrepancy (evidence)
 }
 
 func vC13Field(v reflect.Value, name string) (reflect.Value, bool) {
@@ -441,6 +442,7 @@ func (s *vC13Sess) settle(cur *conf.Conf) {
 
 func (s *vC13Sess) observe(prev, cur *conf.Conf) vC13Obs {
 	s.settle(cur)
+	s.tableWhy = ""
 	o := vC13Obs{ident: map[string]int64{}}
 	// what changed
 	if prev != nil {
@@ -587,6 +589,15 @@ func (s *vC13Sess) observe(prev, cur *conf.Conf) vC13Obs {
 				}
 			}
 		}
+		// the path manager's behaviour: its path table follows the new path configurations (every static configuration has a
+		// live path, every live path still has its configuration and runs with the NEW *conf.Path)
+		if r.Comp == "pathManager" && okField["Paths"] && !s.calib {
+			o.compared++
+			if why := s.pathTable(cur); why != "" {
+				badField["Paths"] = true
+				s.tableWhy = why
+			}
+		}
 		for _, f := range r.Uses {
 			if strings.Contains(f, "#") {
 				continue
@@ -626,6 +637,43 @@ func (s *vC13Sess) observe(prev, cur *conf.Conf) vC13Obs {
 		}
 	}
 	return o
+}
+
+// pathTable compares the path manager's live paths with the path configurations of cur ("" = consistent)
+func (s *vC13Sess) pathTable(cur *conf.Conf) string {
+	pm := s.p.pathManager
+	why := ""
+	for i := 0; i < 100; i++ { // hot-reloaded paths take the new configuration asynchronously
+		req := pathAPIPathsListReq{res: make(chan pathAPIPathsListRes)}
+		var res pathAPIPathsListRes
+		select {
+		case pm.chAPIPathsList <- req:
+			res = <-req.res
+		case <-pm.ctx.Done():
+			return "path manager terminated"
+		}
+		why = ""
+		live := map[string]bool{}
+		for name, pa := range res.paths {
+			live[name] = true
+			pc, _, err := conf.FindPathConf(cur.Paths, name)
+			if err != nil {
+				why = "live path " + name + " has no configuration"
+			} else if got := pa.SafeConf(); got != pc && !got.Equal(pc) {
+				why = "live path " + name + " does not run with the new configuration"
+			}
+		}
+		for name, pc := range cur.Paths {
+			if pc.Regexp == nil && !live[name] {
+				why = "static configuration " + name + " has no live path"
+			}
+		}
+		if why == "" {
+			return ""
+		}
+		time.Sleep(10 * time.Millisecond)
+	}
+	return why
 }
 
 // begin starts a history on the running Core: serial numbers restart at 1
@@ -869,6 +917,28 @@ moqQUICAddress: :%d
 				if err := json.Unmarshal([]byte(fmt.Sprintf(`{"recordDeleteAfter":"%dh"}`, 2+mu.k%20)), &op); err != nil {
 					return nil, err
 				}
+				// … one edited and (from the third on) the oldest removed: additions, removals and edits in one reload
+				var mine []string
+				for name := range c.OptionalPaths {
+					if strings.HasPrefix(name, "verifp") {
+						mine = append(mine, name)
+					}
+				}
+				sort.Slice(mine, func(i, j int) bool { return len(mine[i]) < len(mine[j]) || (len(mine[i]) == len(mine[j]) && mine[i] < mine[j]) })
+				if len(mine) >= 2 {
+					if err := c.RemovePath(mine[0]); err != nil {
+						return nil, err
+					}
+				}
+				if len(mine) >= 1 {
+					var ed conf.OptionalPath
+					if err := json.Unmarshal([]byte(fmt.Sprintf(`{"recordDeleteAfter":"%dh"}`, 30+mu.k%20)), &ed); err != nil {
+						return nil, err
+					}
+					if err := c.PatchPath(mine[len(mine)-1], &ed); err != nil {
+						return nil, err
+					}
+				}
 				if err := c.AddPath(fmt.Sprintf("verifp%d", mu.k), &op); err != nil {
 					return nil, err
 				}
@@ -978,6 +1048,9 @@ moqQUICAddress: :%d
 			d := map[string]any{"changed": rel, "instances": o.ident}
 			if len(o.notHeld) > 0 {
 				d["not_holding_the_new_value"] = o.notHeld
+				if s.tableWhy != "" {
+					d["path_table"] = s.tableWhy
+				}
 			}
 			if len(o.stale) > 0 {
 				d["stale_references"] = o.stale
@@ -1050,6 +1123,86 @@ moqQUICAddress: :%d
 	// 2a. one server switched off, then on again (small replays for guard defects)
 	for _, f := range []string{"RTSP", vPick(r, vC13Flags)} {
 		runHistory("flip", [][]string{{f}, {f}})
+	}
+
+	// 2b. pairs: for EVERY component of the table, one reload that changes a parameter of its close predicate TOGETHER with
+	// the path configurations (added + edited + removed) and the internal users = every "recreate X" x "in-place push" pair;
+	// the parameter is one that does not recreate the path manager where the component has such a parameter, so that the
+	// pushes (ReloadPathConfs into path manager / playback server / record cleaner, ReloadInternalUsers) are due
+	{
+		byComp := map[string]*vC13Row{}
+		for i := range notes.Table {
+			byComp[notes.Table[i].Comp] = &notes.Table[i]
+		}
+		under := map[string]bool{} // parameters whose change recreates the path manager (its predicate and those of what it holds)
+		var walk func(c string, d int)
+		walk = func(c string, d int) {
+			rw := byComp[c]
+			if rw == nil || d > 10 {
+				return
+			}
+			for _, cm := range rw.Cmp {
+				under[cm.Field] = true
+			}
+			for _, x := range rw.Refs {
+				walk(x, d+1)
+			}
+		}
+		walk("pathManager", 0)
+		isGuard := map[string]bool{}
+		for _, rw := range notes.Table {
+			for _, g := range rw.Guard {
+				isGuard[g] = true
+			}
+		}
+		pairDone, pairSkipped := []string{}, map[string]string{}
+		usedField := map[string]bool{}
+		for _, rw := range notes.Table {
+			var cands []string
+			for pass := 0; pass < 4; pass++ { // plain parameter outside the path manager's closure first, guards / shared ones last
+				for _, cm := range rw.Cmp {
+					f := cm.Field
+					if strings.Contains(f, "#") || f == "Paths" || f == "AuthInternalUsers" || f == "AuthMethod" || f == "LogLevel" ||
+						strings.HasSuffix(f, "Encryption") {
+						continue
+					}
+					cls := 0
+					if isGuard[f] {
+						cls++
+					}
+					if under[f] {
+						cls += 2
+					}
+					if cls == pass {
+						cands = append(cands, f)
+					}
+				}
+			}
+			done := false
+			for _, f := range cands {
+				if usedField[f] && !under[f] {
+					continue
+				}
+				if runHistory("pair", [][]string{{f, "*paths", "*users"}}) > 0 {
+					usedField[f] = true
+					pairDone = append(pairDone, rw.Comp+":"+f)
+					done = true
+					if isGuard[f] { // switch it on again, again together with the pushes
+						runHistory("pair", [][]string{{f, "*paths", "*users"}})
+					}
+					break
+				}
+			}
+			if !done {
+				pairSkipped[rw.Comp] = fmt.Sprintf("no parameter of its predicate could be changed (%v)", cands)
+			}
+		}
+		// record cleaner: path configurations changed while it stays / goes / comes back, together with a server's parameter
+		for _, f := range []string{"PlaybackAddress", "APIAddress"} {
+			runHistory("pair", [][]string{{f, "*cleaner"}, {f, "*paths"}, {f, "*cleaner"}, {f, "*paths", "*users"}})
+		}
+		out.extra["pairs"] = pairDone
+		out.extra["pairs_skipped"] = pairSkipped
 	}
 
 	// 2. histories: several groups at once; servers switched off and on again
